@@ -1,7 +1,7 @@
-/// Driver for the committer's reorder buffer: feeds the *same* functions `commit_worker` calls
-/// (`BinaryHeap<WriteTask>` + `process_pending_commits` + `CurrentBatch::flush`) in the same loop
-/// shape, from a slice instead of from the crossbeam channel (whose thread-local `Context` cannot
-/// be compiled by Kani).  `crossbeam_channel::Sender::send` is stubbed by the harness.
+/// Driver for the committer's reorder buffer: runs the body of `commit_worker` itself (see
+/// `commit_worker_driven`, generated from the file's own text) on an array of arrivals instead of the
+/// crossbeam channel (whose thread-local `Context` cannot be compiled by Kani).
+/// `crossbeam_channel::Sender::send` is stubbed by the harness.
 pub mod verif {
     use super::*;
 
@@ -14,49 +14,19 @@ pub mod verif {
             crossbeam_channel::unbounded::<AfterCommitTask<Db>>();
         let shutting_down = Arc::new(AtomicBool::new(shutting_down));
 
-        // ---- from here: the body of `commit_worker`, `receiver.recv()` replaced by the slice ----
-        let mut holdback_queues = BinaryHeap::new();
-
-        let mut current_batch = CurrentBatch {
-            processed_logical_batch: Default::default(),
-            db_write_batch: db.write_batch(),
-            expected_epoch: Epoch(0),
-        };
-
+        let mut tasks: [Option<WriteTask<Db>>; N] = [const { None }; N];
+        let mut i = 0;
         for (epoch, serialize_buffer) in arrivals {
-            let task = WriteTask {
-                write_buffer: WriteBatch::new(Epoch(epoch), true),
-                serialize_buffer,
-            };
-            holdback_queues.push(task);
-
-            WriteBehind::<Db>::process_pending_commits(
-                &mut holdback_queues,
-                &mut current_batch,
-                &after_commit_sender,
-                &shutting_down,
-                db,
-            );
+            tasks[i] = Some(WriteTask { write_buffer: WriteBatch::new(Epoch(epoch), true), serialize_buffer });
+            i += 1;
         }
-
-        WriteBehind::<Db>::process_pending_commits(
-            &mut holdback_queues,
-            &mut current_batch,
-            &after_commit_sender,
-            &shutting_down,
-            db,
-        );
-
-        current_batch.flush(db, &after_commit_sender, &shutting_down);
-
-        assert!(holdback_queues.is_empty());
+        let tasks: [WriteTask<Db>; N] = tasks.map(|t| t.unwrap());
+        // the real body of `commit_worker`, receiving from the array instead of the channel
+        WriteBehind::<Db>::commit_worker_driven(tasks, after_commit_sender, &shutting_down, db);
         // ---- end of `commit_worker` body ----
 
         std::mem::forget(shutting_down);
-        std::mem::forget(after_commit_sender);
         std::mem::forget(after_commit_receiver);
-        std::mem::forget(current_batch);
-        std::mem::forget(holdback_queues);
     }
 
     /// `Ord for WriteTask` on its own: smaller epoch = greater (min-heap through a max-heap)
